@@ -149,6 +149,7 @@ func (prop) Finish(*core.Session) {
 // reset puts the process-global admin state back to "nothing loaded yet".
 func reset() {
 	caddy.Stop()
+	os.Remove(caddy.ConfigAutosavePath)
 	probeMu.Lock()
 	probeLoads = 0
 	probeSaw = nil
@@ -474,6 +475,7 @@ type observation struct {
 	ids     string
 	idResp  map[string]response
 	loads   int
+	saved   string // tree of the autosave file, "-" if there is none
 	ctx     any // identity of the running config's context: changes with every load, also of configs without the probe app
 	saw     string
 	sawTree any
@@ -596,6 +598,15 @@ func observe() (o observation, fails []core.Failure) {
 	saw := probeSaw
 	probeMu.Unlock()
 	o.ctx = caddy.ActiveContext().Context
+	// what the autosave file holds (unsyncedDecodeAndRun writes every accepted non-null config there)
+	o.saved = "-"
+	if b, err := os.ReadFile(caddy.ConfigAutosavePath); err == nil {
+		if v, err := decodeJSON(b); err == nil {
+			o.saved = encTree(v)
+		} else {
+			o.saved = "?"
+		}
+	}
 	o.saw = "-"
 	if saw != nil {
 		if v, err := decodeJSON(saw); err == nil {
@@ -622,6 +633,9 @@ func (prop) Run(line string) core.Outcome {
 		return runIDRace(f[1])
 	case len(f) == 3 && f[0] == "peek":
 		return runPeek(f[1], f[2])
+	}
+	if len(f) == 4 && f[0] == "cli" {
+		return runCLI(line, f[1], f[2], f[3])
 	}
 	if len(f) >= 4 && len(f) <= 6 && f[0] == "gg" {
 		return runGG(line, f[1], f[2:])
@@ -736,7 +750,7 @@ func playHist(steps []step, o *core.Outcome, tags map[string]bool) (outs []strin
 				if st.m == "G" || st.m == "H" {
 					outs = append(outs, "amb")
 				} else {
-					outs = append(outs, "amb/"+prev.cfgEnc+"/"+prev.ids+"/"+strconv.Itoa(prev.loads)+"/"+prev.saw+"/"+strconv.Itoa(allLoads))
+					outs = append(outs, "amb/"+prev.cfgEnc+"/"+prev.ids+"/"+strconv.Itoa(prev.loads)+"/"+prev.saw+"/"+strconv.Itoa(allLoads)+"/"+prev.saved)
 				}
 				continue
 			}
@@ -779,7 +793,16 @@ func playHist(steps []step, o *core.Outcome, tags map[string]bool) (outs []strin
 			o.Failures = append(o.Failures, core.Failure{Class: "unchanged-config-reloaded",
 				What: fmt.Sprintf("%s %s (answered %d) left the document unchanged without asking for a reload, but a configuration was started", methodName[st.m], st.path, r.status)})
 		}
-		outs = append(outs, s+"/"+cur.cfgEnc+"/"+cur.ids+"/"+strconv.Itoa(cur.loads)+"/"+cur.saw+"/"+strconv.Itoa(allLoads))
+		// persistence: the autosave file is the last accepted non-null document, @id and all
+		if reloaded && cur.cfg != nil && cur.saved != cur.cfgEnc {
+			o.Failures = append(o.Failures, core.Failure{Class: "autosave-is-not-the-document",
+				What: fmt.Sprintf("%s %s was accepted; GET /config/ gives %s but the autosave file holds %s", methodName[st.m], st.path, cur.cfgEnc, cur.saved)})
+		}
+		if !reloaded && cur.saved != prev.saved {
+			o.Failures = append(o.Failures, core.Failure{Class: "autosave-written-without-load",
+				What: fmt.Sprintf("%s %s (answered %d) started no configuration but the autosave file changed", methodName[st.m], st.path, r.status)})
+		}
+		outs = append(outs, s+"/"+cur.cfgEnc+"/"+cur.ids+"/"+strconv.Itoa(cur.loads)+"/"+cur.saw+"/"+strconv.Itoa(allLoads)+"/"+cur.saved)
 		prev = cur
 	}
 	return outs, status
